@@ -31,6 +31,26 @@ theorem string_branch_keeps_parse : Generated.stringBranchKeepsParse = true := b
 theorem limitDenominator_fixed (B : Nat) (x : Rat) (h : x.den ≤ B) : limitDenominator B x = x := by
   simp only [limitDenominator, h, if_true]
 
+/-- **`limit_denominator` keeps its promise**: for every bound `B ≥ 1` and every rational, the result has
+    a denominator of at most `B` (loop invariant `ldLoop_inv`; `k = (B - q0) // q1` keeps `q0 + k*q1 ≤ B`) -/
+theorem limitDenominator_den_le (B : Nat) (hB : 1 ≤ B) (x : Rat) : (limitDenominator B x).den ≤ B := by
+  unfold limitDenominator
+  split
+  · assumption
+  · have hi := ldLoop_inv B (x.den + 1) ⟨0, 1, 1, 0, x.num, x.den⟩ hB (Nat.zero_le _)
+    simp only
+    split
+    · exact den_div_le _ _ B hi.2 hB
+    · apply den_div_le _ _ B _ hB
+      have := Nat.div_mul_le_self (B - (ldLoop B (x.den + 1) ⟨0, 1, 1, 0, x.num, x.den⟩).q0) (ldLoop B (x.den + 1) ⟨0, 1, 1, 0, x.num, x.den⟩).q1
+      omega
+
+/-- the operand `Unit.__pow__` raises the expression to always has a denominator within the regenerated
+    bound — so a single `**` never produces a long exponent from a short one; only *composition* does
+    (`arith_exponents_unbounded`) -/
+theorem pow_operand_bounded (p : Rat) : (powOperand p).den ≤ Generated.powDenominatorBound :=
+  limitDenominator_den_le _ (by decide) p
+
 /-- `u * v`, `u / v`, `v / u`: exponents are added / subtracted exactly, for every symbol -/
 theorem mul_adds_exponents (f g : Factors) (s : String) :
     expOf (step f (.mul g)) s = expOf f s + expOf g s ∧
